@@ -98,6 +98,12 @@ def _useall(ctx, zone, floor):
             fn = fn or Fn(f)
             alias = _aliases(f, p)
             use = _use_blocks(f, alias)
+            # an input used for every element of a collection is used by the loop: with no element there is nothing it could
+            # influence (the same code written with an iterator adaptor captures the input before the first element is seen)
+            from .termination import _natural_loops
+            for h, body in _natural_loops(fn, f).items():
+                if use & body:
+                    use = use | {h}
             seen, work, bad = set(), [0], None
             while work:
                 x = work.pop()
